@@ -30,7 +30,7 @@ MANIFEST = dict(
         "createCVSameSize, for every permutation the shuffle may draw, yields a well-formed permutation of the original pairs in exactly the computed "
         "batch layout with disjoint covering folds. The model is tied to the six fold-construction functions by an exact correspondence in which the "
         "RNG draws of the real code are observed and checked against the model's relation, on unsigned / RealVector / CompressedRealVector inputs under "
-        "ASan/UBSan (thorough tier exhaustive over (n, k, batch size) for n <= 24), plus an independent in-harness oracle for disjointness, cover, "
+        "ASan/UBSan (thorough tier exhaustive over (n, k, batch size) for n <= 30), plus an independent in-harness oracle for disjointness, cover, "
         "complement, pairing, fold-size and class balance, requested fold, recreation indices and shape."),
   note=TRUST + "checked by correspondence + oracle only (no theorem): that the class-wise dealing order of createCVSameSizeBalanced really is class-contiguous "
        "(validSeq is checked on the observed order), createCVBatch's chunking, and that the element-dealing loops equal their net effect `regroup`; the RNG "
@@ -40,7 +40,7 @@ MANIFEST = dict(
 
 FINISH = dict(level="proof",
               rule="self-contained fold-construction calls (function, fold count, max batch size, initial batching, labels, index vectors, seed) from one "
-                   "SplitMix64 stream, thorough tier additionally all (n, k, batch size) with n <= 24 for samesize/balanced/indexed; non-trivial = "
+                   "SplitMix64 stream, thorough tier additionally all (n, k, batch size) with n <= 30 for samesize/balanced/indexed; non-trivial = "
                    "at least 2 folds and n not divisible by k or by the batch size; distinct = distinct op text")
 
 LAKE_TARGETS = ["SharkVerif.Props.C12", "drv_c12"]
@@ -126,19 +126,19 @@ def run(ctx):
     r = ctx.rng.fork("c12")
     cases = dsgen.load_corpus("C12")
     ctx.cov["corpus_cases"] = len(cases)
-    nrand = 1500 if ctx.quick else 6000
+    nrand = 3000 if ctx.quick else 12000
     nrand = int(os.environ.get('VERIF_NCASES', nrand))            # self-tests: fewer random calls
     cases += [[gen_op(ctx, r)] for _ in range(nrand)]
     if not ctx.quick:
         # all (n, k, batch size) triples with n <= 24
-        for n in range(1, 25):
+        for n in range(1, 31):
             for k in range(1, n + 1):
                 for bs in sorted({1, 2, 3, 5, n // 2 + 1, n, n + 1}):
                     L = " ".join(str((i * 7 + i // 3) % 3) for i in range(n))
                     cases.append([f"samesize {k} {bs} 0 {n} {n * 31 + k} {L}"])
                     cases.append([f"balanced {k} {bs} 3 {n} {n * 17 + k} {L}"])
                     cases.append([f"indexed {k} {bs} 2 {n} {L} " + " ".join(str(i % k) for i in range(n))])
-        ctx.cov["exhaustive_triples_n_le_24"] = True
+        ctx.cov["exhaustive_triples_n_le_30"] = True
     ctx.cov["evaluations"] = len(cases) * len(TYPES)
     ctx.cov["distinct_nontrivial"] = len({c[0] for c in cases if nontrivial(c[0])})
     ctx.sample({"ops": [c[0] for c in cases[len(cases) // 2: len(cases) // 2 + 4]]})
